@@ -404,7 +404,12 @@ def check_shipped(ctx, case):
     fake = dict(Ts=[float(t) for t in Ts], T_ref=float(g.T_ref), range=[float(rng[0]), float(rng[1])])
     pts, brk = eval_points(fake)
     # a group may lack H or S: evaluate through the underlying complete correlation, which is what Estimate sums
-    obj = g._correlation
+    obj = getattr(g, '_correlation', None)
+    if obj is None:
+        if g.ND_H_ref is None or g.ND_S_ref is None:
+            ctx.event('shipped:incomplete-group-without-inner-correlation(skipped)')
+            return
+        obj = g
     try:
         check_object(ctx, obj, fake, 'shipped %s/%s' % (case['lib'], case['group']), brk, pts,
                      float(H), float(S), float(g.T_ref), ([float(t) for t in Ts], [float(c) for c in Cps]))
